@@ -905,6 +905,7 @@ class C06Check(PoolCheckBase):
             sc["return_utilities"] = True
             sc["max_cycles"] = g.pick([1, 2, 4])
             sc["cand_mode"] = g.pick(["none", "none", "idx", "rows"]) if R.ENTRIES[key]["flags"].get("rows", True) else g.pick(["none", "idx"])
+            sc["force_update"] = g.chance(0.5)
         elif r < 0.70:
             from . import crowdsim as CS
 
@@ -967,6 +968,8 @@ class C06Check(PoolCheckBase):
                 extra["candidates"] = unl.copy()
             elif sc.get("cand_mode") == "rows":
                 extra["candidates"] = w.X[unl].copy()
+            if sc.get("force_update") and "update" in w.params:
+                extra["update"] = True  # (ProbCover: recompute the cached radius in every call)
             try:
                 res = w.call(y, sc["batch_size"], return_utilities=True, **extra)
             except Exception as ex:
